@@ -40,16 +40,38 @@ class DispatchTable(object):
         self.var = None
         self._parse()
 
+    def _dict_table(self, node):
+        """Module-level dict display {'<type name>': <class>} that `node` (a Name) denotes -> ast.Dict or None"""
+        if isinstance(node, ast.Name):
+            r = self.mod.resolve_name(node.id)
+            if isinstance(r, tuple) and r[0] == 'const' and isinstance(r[1], ast.Dict) and r[1].keys and \
+                    all(isinstance(k, ast.Constant) and isinstance(k.value, str) for k in r[1].keys):
+                return r[1], r[2]
+        return None
+
     def _names_of_test(self, test):
-        """type_name == 'X' | type_name in [..] | type_name in CONST  -> (var, [names]) or None"""
+        """type_name == 'X' | type_name in [..] | type_name in CONST | type_name in TABLE  -> (var, [names]) or None"""
         if isinstance(test, ast.Compare) and len(test.ops) == 1 and isinstance(test.left, ast.Name):
             op, rhs = test.ops[0], test.comparators[0]
             if isinstance(op, ast.Eq) and isinstance(rhs, ast.Constant) and isinstance(rhs.value, str):
                 return test.left.id, [rhs.value]
             if isinstance(op, ast.In):
                 v = self.model.try_literal(rhs, self.mod)
-                if isinstance(v, (list, tuple, set)) and all(isinstance(x, str) for x in v):
+                if isinstance(v, (list, tuple, set)) and v and all(isinstance(x, str) for x in v):
                     return test.left.id, list(v)
+                dt = self._dict_table(rhs)
+                if dt is not None:
+                    return test.left.id, [k.value for k in dt[0].keys]
+        if isinstance(test, ast.BoolOp) and isinstance(test.op, ast.Or):
+            names = []
+            var = None
+            for v in test.values:
+                r = self._names_of_test(v)
+                if r is None:
+                    return None
+                var = r[0]
+                names.extend(r[1])
+            return var, names
         return None
 
     def _parse(self):
@@ -57,13 +79,12 @@ class DispatchTable(object):
         chain = None
         for i, s in enumerate(body):
             if isinstance(s, ast.If) and self._names_of_test(s.test):
-                # the dispatch chain is the longest if/elif chain on type_name
                 n = 0
                 t = s
                 while isinstance(t, ast.If) and self._names_of_test(t.test):
                     n += 1
                     t = t.orelse[0] if len(t.orelse) == 1 and isinstance(t.orelse[0], ast.If) else None
-                if n >= 8:
+                if n >= 3:
                     chain = s
                     self.tail = body[i + 1:]
                     break
@@ -73,22 +94,57 @@ class DispatchTable(object):
         while True:
             r = self._names_of_test(t.test)
             if r is None:
-                raise AnalysisError('dispatch chain of %s has a non-type-name test: %s' % (Model.qual(self.func), ast.unparse(t.test)))
+                # first test that is not on the type name (e.g. `type_name in self.types_backtrace`): rest is the else part
+                self.else_body = [t]
+                break
             var, names = r
             self.var = var
             for nm in names:
                 if nm not in self.cells:      # first match wins in an elif chain
                     self.cells[nm] = Cell(nm, t.body, t.test)
-            if len(t.orelse) == 1 and isinstance(t.orelse[0], ast.If) and self._names_of_test(t.orelse[0].test):
+            if len(t.orelse) == 1 and isinstance(t.orelse[0], ast.If):
                 t = t.orelse[0]
             else:
                 self.else_body = t.orelse
                 break
         for c in self.cells.values():
             if c.ctor is not None:
-                r = self.mod.resolve(c.ctor.func) if isinstance(c.ctor.func, (ast.Name, ast.Attribute)) else None
-                if isinstance(r, ClassInfo):
-                    c.cls = r
+                c.cls = self._class_of(c.ctor.func, c)
+
+    def _class_of(self, fn, cell, depth=0):
+        """Class constructed by `fn(...)` in this cell: a class name, TABLE[type_name], TABLE.get(type_name, Default),
+        or a local bound to one of those."""
+        if depth > 3:
+            return None
+        if isinstance(fn, (ast.Name, ast.Attribute)):
+            r = self.mod.resolve(fn)
+            if isinstance(r, ClassInfo):
+                return r
+        if isinstance(fn, ast.Subscript):
+            dt = self._dict_table(fn.value)
+            if dt is not None and isinstance(fn.slice, ast.Name) and fn.slice.id == self.var:
+                for k, v in zip(dt[0].keys, dt[0].values):
+                    if k.value == cell.type_name:
+                        r = dt[1].resolve(v) if isinstance(v, (ast.Name, ast.Attribute)) else None
+                        return r if isinstance(r, ClassInfo) else None
+                return None
+        if isinstance(fn, ast.Call) and isinstance(fn.func, ast.Attribute) and fn.func.attr == 'get' and fn.args:
+            dt = self._dict_table(fn.func.value)
+            if dt is not None and isinstance(fn.args[0], ast.Name) and fn.args[0].id == self.var:
+                for k, v in zip(dt[0].keys, dt[0].values):
+                    if k.value == cell.type_name:
+                        r = dt[1].resolve(v) if isinstance(v, (ast.Name, ast.Attribute)) else None
+                        return r if isinstance(r, ClassInfo) else None
+                if len(fn.args) > 1:
+                    return self._class_of(fn.args[1], cell, depth + 1)
+                return None
+        if isinstance(fn, ast.Name):
+            # a local bound in the branch
+            for s in cell.body:
+                for n in ast.walk(s):
+                    if isinstance(n, ast.Assign) and any(isinstance(t, ast.Name) and t.id == fn.id for t in n.targets):
+                        return self._class_of(n.value, cell, depth + 1)
+        return None
 
 
 CODEC_DISPATCH = {
